@@ -313,13 +313,14 @@ def run(ctx):
     ctx.check("C09.R5", "_validate_record: datum['-type'] is compared with the schema's full name", ok, vr.where(), "_validate_record: '-type' handling", "a '-type' hint must select exactly the record branch with that full name")
 
     # ---- shared ----
-    ctx.borrow("C02", {"C02.R1": "C09.R6", "C02.R2": "C09.R7"}, "closure under read/write needs the union index written to be the chosen branch's position followed by that branch's encoding", only=lambda o: "union" in o["instance"])
+    ctx.borrow("C02", {"C02.R1": "C09.R6", "C02.R2": "C09.R7"}, "closure under read/write needs the union index written to be the chosen branch's position followed by that branch's encoding", only=lambda o: any(k in o["instance"] for k in ("union", "array", "map")))
     ctx.borrow("C10", {"C10.R4": "C09.R8"}, "un-hinted selection is gated by the validators: a record validator that sees another value than the writer writes selects a branch the datum is not encoded under")
 
 
     ctx.borrow("C10", {"C10.R2": "C09.R9"}, "an un-hinted value is written under the first branch validate accepts: a container validator that accepts without consulting every element makes the writer pick a branch the value does not conform to", only=lambda o: any(k in o.get("instance", "") for k in ("_validate_array", "_validate_map", "_validate_record", "_validate_union", "_validate:")))
 
     ctx.borrow("C17", {"C17.R1": "C09.R11"}, "the branch chosen must be a function of (schema, datum): a writer that edits the caller's datum while choosing (e.g. strips a hint) makes the next write of the same object choose differently", only=lambda o: "union" in o["where"].split(":")[1] if o["where"].count(":") >= 1 else False)
+    ctx.borrow("C02", {"C02.R6": "C09.R12"}, "a (name, value) hint must denote one branch: compared with anything but the branch's full name / type name (a simple name, a suffix) an earlier branch that merely shares that part is chosen instead of the branch named")
     # ---- R10 the reader options reach every nested read --------------------------------------------------------
     ctx.rule("C09.R10", "every nested read (read_data from read_data and from the readers of the READERS table) is given the caller's own options: the options decide whether a named branch comes back as (name, value)", floor=6)
     rd = p.func("_read_py:read_data")
